@@ -672,10 +672,18 @@ func stress(rng *prng.R, monitor bool) (ops int, fails []failRec) {
 	}
 	var wg sync.WaitGroup
 	var panics atomic.Int32
+	gids := make([]string, G)
+	finished := make([]atomic.Bool, G)
+	var ready sync.WaitGroup
+	ready.Add(G)
 	for g := 0; g < G; g++ {
 		wg.Add(1)
 		go func(g int) {
 			defer wg.Done()
+			defer finished[g].Store(true)
+			gids[g] = goid()
+			ready.Done()
+			ready.Wait()
 			for i, o := range plans[g].ops {
 				t := &thr{id: g*perG + i, op: o, cr: cr, open: true}
 				ctx := context.WithValue(context.Background(), thrKey{}, t)
@@ -692,11 +700,34 @@ func stress(rng *prng.R, monitor bool) (ops int, fails []failRec) {
 	}
 	done := make(chan struct{})
 	go func() { wg.Wait(); close(done) }()
-	select {
-	case <-done:
-	case <-time.After(settleLimit):
-		fails = append(fails, failRec{Key: "c14.stress-never-returns", What: "free-running operations on one session (ungated FileSys) did not all return within " + settleLimit.String()})
-		return G * perG, fails
+	ready.Wait()
+	deadline := time.Now().Add(settleLimit)
+	for waiting := true; waiting; {
+		select {
+		case <-done:
+			waiting = false
+		case <-time.After(100 * time.Millisecond):
+			// a deadlock is seen positively: in one snapshot every goroutine that has not finished waits for a
+			// mutex (the FileSys does not park anybody here, so nobody is left who could release one)
+			gs := goroutineStates()
+			stuck, alive := 0, 0
+			for g := 0; g < G; g++ {
+				if !finished[g].Load() {
+					alive++
+					if strings.HasPrefix(gs[gids[g]], "sync.Mutex.Lock") {
+						stuck++
+					}
+				}
+			}
+			if alive > 0 && stuck == alive {
+				fails = append(fails, failRec{Key: "c14.stress-deadlock", What: fmt.Sprintf("free-running operations on one session (FileSys calls return at once): all %d unfinished goroutines wait for a mutex", alive)})
+				return G * perG, fails
+			}
+			if time.Now().After(deadline) {
+				fails = append(fails, failRec{Key: "c14.stress-never-returns", What: "free-running operations on one session (ungated FileSys) did not all return within " + settleLimit.String()})
+				return G * perG, fails
+			}
+		}
 	}
 	if n := panics.Load(); n > 0 {
 		fails = append(fails, failRec{Key: "c14.stress-panic", What: fmt.Sprintf("%d session methods panicked under free-running concurrency", n)})
@@ -769,7 +800,19 @@ func runCase(rng *prng.R) caseResult {
 		for _, e := range tab {
 			if e.Locked && !lockedSeen {
 				lockedSeen = true
-				fail("c14.fid-left-locked:after-"+ths[len(ths)-1].op.kind, fmt.Sprintf("fid %d is locked while no operation is in flight (%s)", e.Fid, when))
+				// name the operations that returned in this step
+				var ks []string
+				var prev []byte
+				if len(events) > 0 {
+					prev = events[len(events)-1].obs
+				}
+				for i, t := range ths {
+					if i >= len(prev) || prev[i] != 'd' {
+						ks = append(ks, t.op.kind)
+					}
+				}
+				sort.Strings(ks)
+				fail("c14.fid-left-locked:after-"+strings.Join(ks, "+"), fmt.Sprintf("fid %d is locked while no operation is in flight (%s)", e.Fid, when))
 			}
 		}
 	}
@@ -777,15 +820,15 @@ func runCase(rng *prng.R) caseResult {
 		t := newThr(o)
 		start(sess, t)
 		st := settle(ths)
-		events = append(events, event{start: true, t: t.id, obs: st, items: obsItems(ths, st)})
 		checkIdle(st, "after starting op "+strconv.Itoa(t.id))
+		events = append(events, event{start: true, t: t.id, obs: st, items: obsItems(ths, st)})
 	}
 	doRelease := func(t *thr) {
 		t.state.Store(stRunning)
 		t.gate <- struct{}{}
 		st := settle(ths)
-		events = append(events, event{start: false, t: t.id, obs: st, items: obsItems(ths, st)})
 		checkIdle(st, "after releasing op "+strconv.Itoa(t.id))
+		events = append(events, event{start: false, t: t.id, obs: st, items: obsItems(ths, st)})
 	}
 	parked := func() []*thr {
 		var p []*thr
